@@ -17,6 +17,9 @@ import time
 
 VERIF = os.path.dirname(os.path.abspath(__file__))
 REPO = os.path.abspath(os.environ.get('REPO', '/repo'))
+# evidence and replay files describe /repo itself; a trial against another tree (REPO=<scratch worktree with a seeded
+# change>) writes them to a scratch directory instead, so that /verif/evidence is never produced from anything but /repo
+OUT = VERIF if REPO == '/repo' else os.environ.get('VERIF_OUT', os.path.join('/tmp', 'verif-trial-' + os.path.basename(REPO)))
 
 
 def find_module(pid):
@@ -150,11 +153,11 @@ def main():
 
     known = runner.load_known(pid)
     viol_lines = []
-    os.makedirs(os.path.join(VERIF, 'replays', pid), exist_ok=True)
+    os.makedirs(os.path.join(OUT, 'replays', pid), exist_ok=True)
     for name in order:
         for sig, v in merged[name]['violations'].items():
             fn = os.path.join('replays', pid, '%s-%s.json' % (name, runner.fp_of(sig)[:8]))
-            with open(os.path.join(VERIF, fn), 'w') as f:
+            with open(os.path.join(OUT, fn), 'w') as f:
                 json.dump({'property': pid, 'sub': name, 'signature': sig, 'message': v['msg'], 'case': v['case']},
                           f, indent=1, default=repr)
             viol_lines.append((sig, v['msg'], fn))
@@ -167,7 +170,7 @@ def main():
             if sig in known:
                 continue
             fn = os.path.join('replays', pid, 'aggregate-%s.json' % runner.fp_of(sig)[:8])
-            with open(os.path.join(VERIF, fn), 'w') as f:
+            with open(os.path.join(OUT, fn), 'w') as f:
                 json.dump({'property': pid, 'sub': 'aggregate', 'signature': sig, 'message': msg, 'case': case}, f, indent=1)
             viol_lines.append((sig, msg, fn))
 
@@ -195,8 +198,8 @@ def main():
         'wall_s': round(time.time() - t0, 2),
         'violations': len(viol_lines),
     }
-    os.makedirs(os.path.join(VERIF, 'evidence'), exist_ok=True)
-    with open(os.path.join(VERIF, 'evidence', pid + '.json'), 'w') as f:
+    os.makedirs(os.path.join(OUT, 'evidence'), exist_ok=True)
+    with open(os.path.join(OUT, 'evidence', pid + '.json'), 'w') as f:
         json.dump(ev, f, indent=1, default=repr)
 
     for s, c in sorted(known_seen.items()):
@@ -206,7 +209,7 @@ def main():
     if viol_lines:
         for sig, msg, fn in viol_lines:
             print('  violation %s: %s' % (sig, msg[:300]))
-            print('VIOLATION property=%s replay=%s' % (pid, fn))
+            print('VIOLATION property=%s replay=%s' % (pid, fn if OUT == VERIF else os.path.join(OUT, fn)))
         sys.stdout.flush()
         os._exit(1)
     if harness_errors:
